@@ -4,11 +4,13 @@ package prometheus
 
 import (
 	"context"
+	"encoding/hex"
 	"fmt"
 	"math"
 	"sort"
 	"strconv"
 	"strings"
+	"time"
 
 	"github.com/prometheus/client_golang/prometheus"
 	dto "github.com/prometheus/client_model/go"
@@ -190,16 +192,43 @@ func c18NativeTokens(h *dto.Histogram) string {
 		c18Spans(h.GetPositiveSpan(), h.GetPositiveDelta()), c18Spans(h.GetNegativeSpan(), h.GetNegativeDelta()))
 }
 
+// c18ExLabels renders exemplar label pairs sorted by name (they come out of a Go map).
+func c18ExLabels(e *dto.Exemplar) string {
+	lps := append([]*dto.LabelPair{}, e.Label...)
+	sort.Slice(lps, func(i, j int) bool { return lps[i].GetName() < lps[j].GetName() })
+	var ks, vs []string
+	for _, lp := range lps {
+		ks = append(ks, lp.GetName())
+		vs = append(vs, lp.GetValue())
+	}
+	return c18KVs(ks, vs)
+}
+
+// c18ClassicTokens renders count, sum, the finite buckets, and (optional last token) the exemplars:
+// E:<upper bound q|inf>/<value q>/<labels>;…  (+Inf buckets exist only when client_golang appended one for an exemplar)
 func c18ClassicTokens(h *dto.Histogram) string {
 	bs := "-"
-	if len(h.Bucket) > 0 {
-		p := make([]string, len(h.Bucket))
-		for i, bk := range h.Bucket {
-			p[i] = c18Q(bk.GetUpperBound()) + ":" + strconv.FormatUint(bk.GetCumulativeCount(), 10)
+	var p, ex []string
+	for _, bk := range h.Bucket {
+		slot := "inf"
+		if !math.IsInf(bk.GetUpperBound(), 1) {
+			slot = c18Q(bk.GetUpperBound())
+			p = append(p, slot+":"+strconv.FormatUint(bk.GetCumulativeCount(), 10))
+		} else if bk.Exemplar == nil || bk.GetCumulativeCount() != h.GetSampleCount() {
+			ex = append(ex, "bad-inf-bucket")
 		}
+		if bk.Exemplar != nil {
+			ex = append(ex, slot+"/"+c18Q(bk.Exemplar.GetValue())+"/"+c18ExLabels(bk.Exemplar))
+		}
+	}
+	if len(p) > 0 {
 		bs = strings.Join(p, ",")
 	}
-	return fmt.Sprintf("%d %s %s", h.GetSampleCount(), c18Q(h.GetSampleSum()), bs)
+	out := fmt.Sprintf("%d %s %s", h.GetSampleCount(), c18Q(h.GetSampleSum()), bs)
+	if len(ex) > 0 {
+		out += " E:" + strings.Join(ex, ";")
+	}
+	return out
 }
 
 // c18Families renders the result of Registry.Gather canonically (families by name, series by rendering).
@@ -232,6 +261,9 @@ func c18Families(mfs []*dto.MetricFamily) string {
 			switch {
 			case m.Counter != nil:
 				pl = "v " + c18Q(m.Counter.GetValue())
+				if e := m.Counter.Exemplar; e != nil {
+					pl += " E:c/" + c18Q(e.GetValue()) + "/" + c18ExLabels(e)
+				}
 			case m.Gauge != nil:
 				pl = "v " + c18Q(m.Gauge.GetValue())
 			case m.Histogram != nil && m.Histogram.Schema != nil:
@@ -257,20 +289,53 @@ func c18Families(mfs []*dto.MetricFamily) string {
 
 // ---- SDK data → input part of an e2e line ----
 
-func c18PointNum[N int64 | float64](dps []metricdata.DataPoint[N]) []string {
+// c18Exemplars renders the SDK exemplars of a data point as the optional token ` E:<q>/<filtered kvs>/<trace>/<span>;…`
+// (ids as the hex of their lower-case hex text, which is what the exporter puts into the labels).
+func c18Exemplars[N int64 | float64](exs []metricdata.Exemplar[N], with bool) string {
+	if !with || len(exs) == 0 {
+		return ""
+	}
+	p := make([]string, len(exs))
+	for i, e := range exs {
+		var ks, vs []string
+		for _, kv := range e.FilteredAttributes {
+			ks = append(ks, string(kv.Key))
+			vs = append(vs, kv.Value.Emit())
+		}
+		p[i] = fmt.Sprintf("%s/%s/%s/%s", c18Q(float64(e.Value)), c18KVs(ks, vs), vHex(hex.EncodeToString(e.TraceID)), vHex(hex.EncodeToString(e.SpanID)))
+	}
+	return " E:" + strings.Join(p, ";")
+}
+
+func c18ParseExemplars(tok string) []metricdata.Exemplar[float64] {
+	var out []metricdata.Exemplar[float64]
+	for _, it := range strings.Split(strings.TrimPrefix(tok, "E:"), ";") {
+		f := strings.Split(it, "/")
+		if len(f) != 4 {
+			panic("bad exemplar in replay: " + it)
+		}
+		tid, _ := hex.DecodeString(vUnhex(f[2]))
+		sid, _ := hex.DecodeString(vUnhex(f[3]))
+		out = append(out, metricdata.Exemplar[float64]{Value: float64(c18Atoi(f[0])) / 4, FilteredAttributes: c18ParseKVs(f[1]),
+			TraceID: tid, SpanID: sid, Time: time.Unix(1700000000, 0)})
+	}
+	return out
+}
+
+func c18PointNum[N int64 | float64](dps []metricdata.DataPoint[N], withEx bool) []string {
 	var out []string
 	for _, dp := range dps {
-		out = append(out, fmt.Sprintf("P %s v %s", c18SetKVs(dp.Attributes), c18Q(float64(dp.Value))))
+		out = append(out, fmt.Sprintf("P %s v %s%s", c18SetKVs(dp.Attributes), c18Q(float64(dp.Value)), c18Exemplars(dp.Exemplars, withEx)))
 	}
 	sort.Strings(out)
 	return out
 }
 
-func c18PointHist[N int64 | float64](dps []metricdata.HistogramDataPoint[N]) []string {
+func c18PointHist[N int64 | float64](dps []metricdata.HistogramDataPoint[N], withEx bool) []string {
 	var out []string
 	for _, dp := range dps {
-		out = append(out, fmt.Sprintf("P %s h %d %s %s %s", c18SetKVs(dp.Attributes), dp.Count, c18Q(float64(dp.Sum)),
-			c18Bounds(dp.Bounds), c18Uints(dp.BucketCounts)))
+		out = append(out, fmt.Sprintf("P %s h %d %s %s %s%s", c18SetKVs(dp.Attributes), dp.Count, c18Q(float64(dp.Sum)),
+			c18Bounds(dp.Bounds), c18Uints(dp.BucketCounts), c18Exemplars(dp.Exemplars, withEx)))
 	}
 	sort.Strings(out)
 	return out
@@ -292,7 +357,7 @@ func c18PointExpo[N int64 | float64](dps []metricdata.ExponentialHistogramDataPo
 }
 
 // c18Data renders resource metrics (as seen by a cumulative ManualReader) as the S/I/P groups of an e2e line.
-func c18Data(rm *metricdata.ResourceMetrics) string {
+func c18Data(rm *metricdata.ResourceMetrics, withEx bool) string {
 	sms := append([]metricdata.ScopeMetrics{}, rm.ScopeMetrics...)
 	sort.Slice(sms, func(i, j int) bool {
 		if sms[i].Scope.Name != sms[j].Scope.Name {
@@ -309,22 +374,22 @@ func c18Data(rm *metricdata.ResourceMetrics) string {
 			switch v := m.Data.(type) {
 			case metricdata.Sum[int64]:
 				dt = map[bool]string{true: "sm", false: "sn"}[v.IsMonotonic]
-				pts = c18PointNum(v.DataPoints)
+				pts = c18PointNum(v.DataPoints, withEx)
 			case metricdata.Sum[float64]:
 				dt = map[bool]string{true: "sm", false: "sn"}[v.IsMonotonic]
-				pts = c18PointNum(v.DataPoints)
+				pts = c18PointNum(v.DataPoints, withEx)
 			case metricdata.Gauge[int64]:
 				dt = "g"
-				pts = c18PointNum(v.DataPoints)
+				pts = c18PointNum(v.DataPoints, withEx)
 			case metricdata.Gauge[float64]:
 				dt = "g"
-				pts = c18PointNum(v.DataPoints)
+				pts = c18PointNum(v.DataPoints, withEx)
 			case metricdata.Histogram[int64]:
 				dt = "h"
-				pts = c18PointHist(v.DataPoints)
+				pts = c18PointHist(v.DataPoints, withEx)
 			case metricdata.Histogram[float64]:
 				dt = "h"
-				pts = c18PointHist(v.DataPoints)
+				pts = c18PointHist(v.DataPoints, withEx)
 			case metricdata.ExponentialHistogram[int64]:
 				dt = "e"
 				pts = c18PointExpo(v.DataPoints)
@@ -349,6 +414,21 @@ type c18Reader struct {
 func (r *c18Reader) Collect(_ context.Context, rm *metricdata.ResourceMetrics) error {
 	*rm = *r.rm
 	return nil
+}
+
+// c18Tap records what the exporter's own reader handed to Collect (the exemplars of the two readers' reservoirs may
+// differ, so the exemplars of the input part are taken here; everything else is cross-checked with the second reader).
+type c18Tap struct {
+	sdkmetric.Reader
+	last  string // with exemplars
+	plain string // without
+}
+
+func (r *c18Tap) Collect(ctx context.Context, rm *metricdata.ResourceMetrics) error {
+	err := r.Reader.Collect(ctx, rm)
+	r.last = c18Data(rm, true)
+	r.plain = c18Data(rm, false)
+	return err
 }
 
 func c18Groups(toks []string) [][]string {
@@ -397,16 +477,22 @@ func c18ParseData(res []attribute.KeyValue, groups [][]string) *metricdata.Resou
 			sm := &rm.ScopeMetrics[len(rm.ScopeMetrics)-1]
 			m := &sm.Metrics[len(sm.Metrics)-1]
 			set := attribute.NewSet(c18ParseKVs(g[1])...)
+			var exs []metricdata.Exemplar[float64]
+			if last := g[len(g)-1]; strings.HasPrefix(last, "E:") {
+				exs = c18ParseExemplars(last)
+				g = g[:len(g)-1]
+			}
 			switch d := m.Data.(type) {
 			case metricdata.Sum[float64]:
-				d.DataPoints = append(d.DataPoints, metricdata.DataPoint[float64]{Attributes: set, Value: float64(c18Atoi(g[3])) / 4})
+				d.DataPoints = append(d.DataPoints, metricdata.DataPoint[float64]{Attributes: set, Value: float64(c18Atoi(g[3])) / 4, Exemplars: exs})
 				m.Data = d
 			case metricdata.Gauge[float64]:
 				d.DataPoints = append(d.DataPoints, metricdata.DataPoint[float64]{Attributes: set, Value: float64(c18Atoi(g[3])) / 4})
 				m.Data = d
 			case metricdata.Histogram[float64]:
 				d.DataPoints = append(d.DataPoints, metricdata.HistogramDataPoint[float64]{Attributes: set,
-					Count: uint64(c18Atoi(g[3])), Sum: float64(c18Atoi(g[4])) / 4, Bounds: c18ParseBounds(g[5]), BucketCounts: c18ParseUints(g[6])})
+					Count: uint64(c18Atoi(g[3])), Sum: float64(c18Atoi(g[4])) / 4, Bounds: c18ParseBounds(g[5]), BucketCounts: c18ParseUints(g[6]),
+					Exemplars: exs})
 				m.Data = d
 			case metricdata.ExponentialHistogram[float64]:
 				dp := metricdata.ExponentialHistogramDataPoint[float64]{Attributes: set,
@@ -451,12 +537,19 @@ func c18Opts(flags string, nsTok string) []Option {
 }
 
 // c18Gather scrapes the captured collector through a real registry; a panic in Collect is an observation.
-func c18Gather(c prometheus.Collector) string {
+func c18Gather(c prometheus.Collector) (res string) {
 	var pan string
 	reg := prometheus.NewRegistry()
 	if err := reg.Register(c18Safe{c, &pan}); err != nil {
 		return "register-error"
 	}
+	// Collect runs in a goroutine of the registry (recovered by c18Safe); the metrics it sent are processed in the
+	// goroutine that called Gather: a nil metric panics there.
+	defer func() {
+		if r := recover(); r != nil {
+			res = "panic"
+		}
+	}()
 	mfs, err := reg.Gather()
 	if pan != "" {
 		return "panic"
